@@ -279,3 +279,78 @@ Definition icptf_spec_failures (cases : list icptf_case) : list (Z * Z) :=
   find_codes (fun c : icptf_case =>
     let '(((nm, nf, pt, fssrc, mssrc), ws, fls, outs), _, _) := c in
     icpt_spec nm nf pt fssrc mssrc None [] [] ws fls outs) cases 0.
+
+(* ---- long runs through ONE encoder (round 5; theorems in Properties/C14e.v) ---- *)
+(* payload type, FEC SSRC;
+   per batch (k media packets, n FEC packets, 1 iff the media sequence numbers have a hole, kind, number of
+   repair packets), equal neighbours merged: (k, n, gap, kind, count, times);
+   the sequence number of EVERY repair packet of the run in order of emission, as (start, length) runs of +1;
+   sampled batches in full: (number of repair packets emitted before the batch, the batch as in enc_case) *)
+Definition long_case := (Z * Z * list (Z * Z * Z * Z * Z * Z) * list (Z * Z) * list (Z * obatch))%type.
+
+Definition expand_segs (segs : list (Z * Z)) : list Z :=
+  flat_map (fun sl => zrange (fst sl) (Z.to_nat (snd sl))) segs.
+
+(* C14e_kth_repair_sn: the k-th repair packet of an encoder carries (1000 + k) mod 2^16 *)
+Definition kth_sn (k : Z) : Z := (1000 + k) mod 65536.
+
+(* C14e_repair_count: an accepted batch yields min(min(n, 110), k) repair packets, a declined one none *)
+Definition expected_cnt (k n gap : Z) : Z :=
+  if (gap =? 1) || (k <? 1) || (109 <? k) then 0 else Z.min (Z.min n 110) k.
+
+Definition group_total (gs : list (Z * Z * Z * Z * Z * Z)) : Z :=
+  fold_left (fun a g => let '(_, _, _, _, cnt, times) := g in a + cnt * times) gs 0.
+
+Definition orep_sn (r : orep) : Z := let '(_, _, s, _, _, _) := r in s.
+
+(* correspondence: sequence numbers as the theorem says; repair packet counts; the projections agree with
+   each other (sum of counts = number of sequence numbers, the sampled batch's repair packets carry the
+   sequence numbers at its place in the run); each sampled batch is what the model returns for it on an
+   encoder whose counter is where the theorem puts it and that has no coverage table yet
+   (C14_batches_independent: what went before does not matter) *)
+Definition long_model_ok (c : long_case) : bool :=
+  let '(pt, ssrc, groups, segs, samples) := c in
+  let sns := expand_segs segs in
+  list_eqb Z.eqb sns (map kth_sn (zrange 0 (length sns))) &&
+  forallb (fun g => let '(k, n, gap, kind, cnt, _) := g in (negb (kind =? 2)) && (cnt =? expected_cnt k n gap)) groups &&
+  (group_total groups =? Z.of_nat (length sns)) &&
+  forallb (fun s : Z * obatch =>
+    let '(prec, b) := s in
+    let reps := snd (snd b) in
+    list_eqb Z.eqb (map orep_sn reps) (firstn (length reps) (skipn (Z.to_nat prec) sns)) &&
+    res_eqb (snd (encode_fec2 {| e_sn := kth_sn prec; e_pt := pt; e_ssrc := ssrc; e_cov := None |} (ob_media b) (ob_n b)))
+            (snd b)) samples.
+
+Definition long_mismatches (cases : list long_case) : list nat :=
+  find_idx (fun c => negb (long_model_ok c)) cases 0.
+
+(* the oracle, on the implementation's outputs only:
+     6   "sequence numbers increasing by one": over ALL repair packets of the run, each is the previous one
+         plus one mod 2^16 (sn_consecutive, the clause batch_code applies within a batch and to its predecessor)
+     10/16 a batch panicked (n <= 110 / n > 110)
+     11  a describable batch (1..109 consecutive packets, n >= 1) got no repair packet
+     else the codes of batch_code on each sampled batch, its predecessor being the repair packet emitted just
+     before it - recovery of every named packet, every packet named, SSRC / PT - deep inside the history *)
+Definition long_spec (c : long_case) : nat :=
+  let '(pt, ssrc, groups, segs, samples) := c in
+  let sns := expand_segs segs in
+  if negb (sn_consecutive None sns) then 6%nat else
+  if existsb (fun g => let '(_, n, _, kind, _, _) := g in (kind =? 2) && (n <=? 110)) groups then 10%nat else
+  if existsb (fun g => let '(_, _, _, kind, _, _) := g in kind =? 2) groups then 16%nat else
+  if existsb (fun g => let '(k, n, gap, _, cnt, _) := g in
+                       (gap =? 0) && (1 <=? k) && (k <=? 109) && (1 <=? n) && (cnt =? 0)) groups then 11%nat else
+  (fix go (l : list (Z * obatch)) : nat :=
+     match l with
+     | [] => 0%nat
+     | (prec, (media, flags, n, (kind, reps))) :: tl =>
+       if (kind =? 1) && (1 <=? n) then
+         let last := if prec =? 0 then None else Some (nth (Z.to_nat (prec - 1)) sns (-1)) in
+         match batch_code pt ssrc last n flags media reps with
+         | O => go tl
+         | code => code
+         end
+       else go tl
+     end) samples.
+
+Definition long_spec_failures (cases : list long_case) : list (Z * Z) :=
+  find_codes long_spec cases 0.
